@@ -111,6 +111,13 @@ static const char* K7NAME[] =
 };
 struct Op7 { int kind, i, j, a, b; };     // a, b index into VAL
 static std::string op_str(const Op7& o) { return std::to_string(o.kind) + ":" + std::to_string(o.i) + ":" + std::to_string(o.j) + ":" + std::to_string(o.a) + ":" + std::to_string(o.b); }
+// name of an operation inside a violation signature: the array entry points with an index behind the current dimension are a case of their own
+static std::string op_name(const Op7& o)
+{
+   if(o.kind == Q_ADDROW_MPQ && o.j == 1) return "addRowRational(mpq,creates-columns)";
+   if(o.kind == Q_ADDCOL_MPQ && o.j == 1) return "addColRational(mpq,creates-rows)";
+   return K7NAME[o.kind];
+}
 static std::string op_pretty(const Op7& o) { return std::string(K7NAME[o.kind]) + "[i=" + std::to_string(o.i) + ",j=" + std::to_string(o.j) + ",a=" + VALNAME[o.a] + ",b=" + VALNAME[o.b] + "]"; }
 
 static bool finite_ok(const Ext& l, const Ext& u) { if(l.inf > 0 || u.inf < 0) return false; if(l.fin() && u.fin()) return l.v <= u.v; return true; }
@@ -128,6 +135,8 @@ static std::vector<Op7> alphabet7(int n, int m)
       add(R_ADDROW, 0, 0, 0, 7); add(R_ADDROW, 0, 0, 6, 5); add(R_ADDCOL, 0, 0, 1, 5); add(R_ADDCOL, 0, 0, 0, 7);
       add(Q_ADDROW, 0, 0, 0, 2); add(Q_ADDROW, 0, 0, 8, 4); add(Q_ADDROW_MPQ, 0, 0, 2, 5); add(Q_ADDROW_MPQ, 0, 0, 0, 3);
       add(Q_ADDCOL, 0, 0, 1, 5); add(Q_ADDCOL, 0, 0, 8, 2); add(Q_ADDCOL_MPQ, 0, 0, 0, 4); add(Q_ADDCOL_MPQ, 0, 0, 3, 5);
+      // array entry points with an index behind the current dimension (j = 1): rows / columns are created implicitly
+      add(Q_ADDROW_MPQ, 0, 1, 2, 5); add(Q_ADDCOL_MPQ, 0, 1, 1, 7);
    }
    for(int i : ri)
    {
@@ -297,11 +306,24 @@ static bool apply7(SoPlex& spx, RModel& mo, const Op7& o, bool* swapLast)
       std::vector<Q> a = patQ(n, 0);
       std::vector<Mpq> vals; std::vector<int> idx;
       for(int j = 0; j < n; ++j) if(a[j] != 0) { Mpq q; mpq_set(q.q, a[j].get_mpq_t()); vals.push_back(q); idx.push_back(j); }
+      if(o.j == 1)
+      {
+         // extended form: one more nonzero at column index n+1 - the array entry point then creates the columns n and n+1 itself ("create new columns if required"):
+         // empty columns with objective 0 and bounds [0, +inf), in both LPs
+         Mpq q; mpq_set(q.q, qq(5, 3).get_mpq_t()); vals.push_back(q); idx.push_back(n + 1);
+      }
       Mpq l, r; l.set(spxval(A, spx)); r.set(spxval(B, spx));
       std::vector<mpq_t> raw(vals.size() + 1);
       for(size_t k = 0; k < vals.size(); ++k) { mpq_init(raw[k]); mpq_set(raw[k], vals[k].q); }
       spx.addRowRational(&l.q, raw.data(), idx.data(), (int)vals.size(), &r.q);
       for(size_t k = 0; k < vals.size(); ++k) mpq_clear(raw[k]);
+      if(o.j == 1)
+      {
+         mo.addCol(Q(0), Ext(Q(0)), std::vector<Q>(), Ext::pinf());
+         mo.addCol(Q(0), Ext(Q(0)), std::vector<Q>(), Ext::pinf());
+         a.resize(n + 2, Q(0));
+         a[n + 1] = qq(5, 3);
+      }
       mo.addRow(A, a, B);
       return true;
    }
@@ -319,11 +341,19 @@ static bool apply7(SoPlex& spx, RModel& mo, const Op7& o, bool* swapLast)
       std::vector<Q> a = patQ(m, 0);
       std::vector<int> idx; std::vector<Q> nz;
       for(int i = 0; i < m; ++i) if(a[i] != 0) { idx.push_back(i); nz.push_back(a[i]); }
+      if(o.j == 1) { idx.push_back(m + 1); nz.push_back(qq(-7, 3)); }     // extended form: creates the rows m and m+1 (empty rows 0 <= . < +inf) in both LPs
       std::vector<mpq_t> raw(nz.size() + 1);
       for(size_t k = 0; k < nz.size(); ++k) { mpq_init(raw[k]); mpq_set(raw[k], nz[k].get_mpq_t()); }
       Mpq ob, l, u; mpq_set(ob.q, qq(-5, 3).get_mpq_t()); l.set(spxval(A, spx)); u.set(spxval(B, spx));
       spx.addColRational(&ob.q, &l.q, raw.data(), idx.data(), (int)nz.size(), &u.q);
       for(size_t k = 0; k < nz.size(); ++k) mpq_clear(raw[k]);
+      if(o.j == 1)
+      {
+         mo.addRow(Ext(Q(0)), std::vector<Q>(), Ext::pinf());
+         mo.addRow(Ext(Q(0)), std::vector<Q>(), Ext::pinf());
+         a.resize(m + 2, Q(0));
+         a[m + 1] = qq(-7, 3);
+      }
       mo.addCol(qq(-5, 3), A, a, B);
       return true;
    }
@@ -532,8 +562,8 @@ static uint64_t run_hist(const Hist7& h, Ctx& c, RModel* out, bool* applicable)
    {
       size_t bar = r.find('|');
       std::string prev;
-      for(size_t k = 0; k + 1 < h.ops.size(); ++k) prev += (k ? ">" : "") + std::string(K7NAME[h.ops[k].kind]);
-      c.violation(r.substr(0, bar) + ":" + (h.ops.empty() ? "init" : K7NAME[h.ops.back().kind]) + "@" + INITN[h.init] + "|" + prev, hist_str(h), r.substr(bar + 1) + " | " + hist_pretty(h) + " | model " + mo.str());
+      for(size_t k = 0; k + 1 < h.ops.size(); ++k) prev += (k ? ">" : "") + op_name(h.ops[k]);
+      c.violation(r.substr(0, bar) + ":" + (h.ops.empty() ? std::string("init") : op_name(h.ops.back())) + "@" + INITN[h.init] + "|" + prev, hist_str(h), r.substr(bar + 1) + " | " + hist_pretty(h) + " | model " + mo.str());
       return 1;
    }
    c.state(std::to_string(fnv_str(mo.str())));
